@@ -50,7 +50,9 @@ PAIRS = r'''
 import itertools, json, sys
 import joblib
 def leaves():
-    return [0, 1, 2, 0.0, 1.0, True, False, None, "", "a", "1", b"", b"a", b"1"]
+    # ... and classes / singletons as values (an argument like (int, type(None)) or Optional[int]): type(None), type(...), type(NotImplemented)
+    # cannot be imported by name, pickle reduces them to type(<singleton>)
+    return [0, 1, 2, 0.0, 1.0, True, False, None, "", "a", "1", b"", b"a", b"1", int, type(None), type(...), type(NotImplemented), ..., NotImplemented]
 def hashable_leaves():
     return leaves()
 def canon(v):
@@ -87,7 +89,13 @@ for hn in ("md5", "sha1"):
     seen = {}
     bad = None
     for v in universe:
-        c, h = canon(v), joblib.hash(v, hash_name=hn)
+        try:
+            c, h = canon(v), joblib.hash(v, hash_name=hn)
+        except Exception as e:
+            import pickle
+            pickle.dumps(v)  # the value IS picklable (else the universe is wrong: let it crash)
+            print(json.dumps(dict(ok=False, hash_name=hn, refused=True, pair=[repr(v), "%s: %s" % (type(e).__name__, str(e)[:200])], n=len(universe))))
+            sys.exit(0)
         if h in seen and seen[h][0] != c:
             bad = [repr(seen[h][1]), repr(v)]
             break
@@ -180,6 +188,9 @@ def pairs_only():
     if pr.returncode != 0:
         raise RuntimeError(pr.stderr[-800:])
     res = json.loads(pr.stdout.strip().splitlines()[-1])
+    if not res["ok"] and res.get("refused"):
+        return dict(violation=True, cases=res["n"], what="joblib.hash refuses a value that pickle accepts (a cached function cannot be called with it): %s" % " -> ".join(res["pair"]),
+                    witness=res["pair"])
     if not res["ok"]:
         return dict(violation=True, cases=res["n"], what="two values that differ in content or type get the same %s digest (or one value two): %s" % (res["hash_name"], " / ".join(res["pair"])),
                     witness=res["pair"])
@@ -225,6 +236,9 @@ def main(nseeds):
         raise RuntimeError(pr.stderr[-800:])
     res = json.loads(pr.stdout.strip().splitlines()[-1])
     cases += res.get("pairs", res["n"])
+    if not res["ok"] and res.get("refused"):
+        return dict(violation=True, cases=cases, what="joblib.hash refuses a value that pickle accepts (a cached function cannot be called with it): %s" % " -> ".join(res["pair"]),
+                    witness=res["pair"], known=known)
     if not res["ok"]:
         return dict(violation=True, cases=cases, what="two values that differ in content or type get the same %s digest (or one value two): %s" % (res["hash_name"], " / ".join(res["pair"])),
                     witness=res["pair"], known=known)
